@@ -24,7 +24,6 @@ import (
 	"errors"
 	"fmt"
 	"os"
-	"regexp"
 	"runtime"
 	"sort"
 	"strconv"
@@ -32,6 +31,7 @@ import (
 	"sync"
 	"testing"
 	"time"
+	"unicode/utf8"
 
 	"github.com/gotid/god/lib/logx"
 	"github.com/gotid/god/lib/store/sqlx"
@@ -55,14 +55,14 @@ const (
 type c16bVariant struct{ prefix, suffix string }
 
 var c16bVariants = []c16bVariant{
-	{"insert into t (id, g, seq) values", ""},
-	{"insert into t2 (id, g, seq) values", ""},
-	{"insert into t3 (id, g, seq) values", "on duplicate key update seq = seq"},
-	{"insert into t (id, g, seq) values", "on duplicate key update seq = seq"},
+	{"insert into t (id, g, seq, txt) values", ""},
+	{"insert into t2 (id, g, seq, txt) values", ""},
+	{"insert into t3 (id, g, seq, txt) values", "on duplicate key update seq = seq"},
+	{"insert into t (id, g, seq, txt) values", "on duplicate key update seq = seq"},
 }
 
 func (v c16bVariant) text() string {
-	s := v.prefix + " (?, ?, ?)"
+	s := v.prefix + " (?, ?, ?, ?)"
 	if v.suffix != "" {
 		s += " " + v.suffix
 	}
@@ -72,6 +72,47 @@ func (v c16bVariant) text() string {
 // ---------------------------------------------------------------- fake driver
 
 var errC16bInjected = errors.New("c16 injected exec fault")
+
+// c16bFailErr: the error VALUE the driver returns for the failing statement
+func c16bFailErr(kind int) error {
+	switch kind {
+	case 1:
+		return sql.ErrNoRows // "acceptable" for the connection's breaker
+	case 2:
+		return context.Canceled
+	case 3:
+		return fmt.Errorf("c16 wrapped: %w", errC16bInjected)
+	}
+	return errC16bInjected
+}
+
+// c16bAlphabet: text values of the fourth column (full alphabet of what a caller can insert)
+var c16bAlphabet = []string{
+	"", "plain", "it's", `back\slash`, `dq"uote`, "), (1, 2, 3, 'x", "?", "a?b??", "%s %d %! %%", "values",
+	"nul\x00byte", "\xff\xfe invalid utf-8", "h\u00e9llo \u4e16\u754c", "\n\r\x1a", " lead/trail ", "' or '1'='1",
+	strings.Repeat("x", 100), strings.Repeat("long'\\", 9363), // 64 KiB
+}
+
+func c16bText(alpha, id int, big bool) string {
+	if alpha == 0 {
+		return "t"
+	}
+	t := c16bAlphabet[(id*7+alpha)%len(c16bAlphabet)]
+	if big && len(t) > 1000 { // cases with thousands of rows: keep statements below a few MB
+		t = t[:1000]
+	}
+	return t
+}
+
+// big: the case inserts runs of hundreds of rows
+func (c c16bCase) big() bool {
+	for _, e := range c.Ev {
+		if e.N >= 400 {
+			return true
+		}
+	}
+	return false
+}
 
 type c16bStmt struct {
 	query  string
@@ -87,6 +128,7 @@ type c16bFake struct {
 	stmts  []c16bStmt
 	lat    []int
 	failAt int
+	failK  int
 	unit   time.Duration
 }
 
@@ -125,10 +167,9 @@ func (c *c16bConn) ExecContext(_ context.Context, q string, _ []driver.NamedValu
 		}
 	}
 	if fail {
-		return nil, errC16bInjected
+		return nil, c16bFailErr(f.failK)
 	}
-	// one "(" in the column list of the prefix, one per row
-	return driver.RowsAffected(int64(strings.Count(q, "(") - 1)), nil
+	return driver.RowsAffected(int64(len(q))), nil // the oracle compares with the statement's length
 }
 
 // ---------------------------------------------------------------- case
@@ -144,13 +185,25 @@ type c16bEv struct {
 
 type c16bCase struct {
 	Ev      []c16bEv `json:"ev"`
-	Lat     []int    `json:"lat,omitempty"` // Exec latency of the k-th statement, quarter intervals
-	FailAt  int      `json:"fail"`          // index of the statement the driver fails (-1: none)
-	Handler bool     `json:"h,omitempty"`   // SetResultHandler
-	V0      int      `json:"v0,omitempty"`  // statement variant passed to NewBulkInserter
+	Lat     []int    `json:"lat,omitempty"`   // Exec latency of the k-th statement, quarter intervals
+	FailAt  int      `json:"fail"`            // index of the statement the driver fails (-1: none)
+	FailK   int      `json:"failk,omitempty"` // error value: 0 custom, 1 sql.ErrNoRows, 2 context.Canceled, 3 wrapped custom
+	Alpha   int      `json:"alpha,omitempty"` // 0: fourth column is always 't'; else seed into c16bAlphabet
+	Handler bool     `json:"h,omitempty"`     // SetResultHandler
+	V0      int      `json:"v0,omitempty"`    // statement variant passed to NewBulkInserter
 }
 
-type c16bRow struct{ id, g, seq int }
+type c16bRow struct {
+	id, g, seq int
+	txt        string
+}
+
+func c16bMin(a, b int) int {
+	if a < b {
+		return a
+	}
+	return b
+}
 
 func c16bMax(a, b int) int {
 	if a > b {
@@ -159,11 +212,107 @@ func c16bMax(a, b int) int {
 	return b
 }
 
-var c16bRowRe = regexp.MustCompile(`^\((\d+), (\d+), (\d+)\)$`)
+// c16bScanRows: (int, int, int, 'text') tuples separated by ", ". Inside quotes a backslash
+// escapes the next character (\\ \' \" \r \n, and the four-character forms \x00 \x1a).
+func c16bScanRows(body string) ([]c16bRow, error) {
+	var rows []c16bRow
+	i := 0
+	num := func() (int, error) {
+		st := i
+		for i < len(body) && body[i] >= '0' && body[i] <= '9' {
+			i++
+		}
+		if st == i {
+			return 0, fmt.Errorf("number expected at offset %d: %.30q", st, body[st:])
+		}
+		return strconv.Atoi(body[st:i])
+	}
+	lit := func(l string) error {
+		if !strings.HasPrefix(body[i:], l) {
+			return fmt.Errorf("%q expected at offset %d: %.30q", l, i, body[i:])
+		}
+		i += len(l)
+		return nil
+	}
+	for {
+		var r c16bRow
+		var err error
+		if err = lit("("); err != nil {
+			return rows, err
+		}
+		if r.id, err = num(); err != nil {
+			return rows, err
+		}
+		if err = lit(", "); err != nil {
+			return rows, err
+		}
+		if r.g, err = num(); err != nil {
+			return rows, err
+		}
+		if err = lit(", "); err != nil {
+			return rows, err
+		}
+		if r.seq, err = num(); err != nil {
+			return rows, err
+		}
+		if err = lit(", '"); err != nil {
+			return rows, err
+		}
+		var sb strings.Builder
+		closed := false
+		for i < len(body) {
+			ch := body[i]
+			if ch == '\'' {
+				i++
+				closed = true
+				break
+			}
+			if ch == '\\' && i+1 < len(body) {
+				switch n := body[i+1]; {
+				case n == 'x' && i+3 < len(body):
+					v, e := strconv.ParseUint(body[i+2:i+4], 16, 8)
+					if e != nil {
+						return rows, fmt.Errorf("bad \\x escape at offset %d", i)
+					}
+					sb.WriteByte(byte(v))
+					i += 4
+				case n == 'r':
+					sb.WriteByte('\r')
+					i += 2
+				case n == 'n':
+					sb.WriteByte('\n')
+					i += 2
+				default:
+					sb.WriteByte(n)
+					i += 2
+				}
+				continue
+			}
+			sb.WriteByte(ch)
+			i++
+		}
+		if !closed {
+			return rows, fmt.Errorf("unterminated text value in row id %d", r.id)
+		}
+		r.txt = sb.String()
+		if err = lit(")"); err != nil {
+			return rows, err
+		}
+		rows = append(rows, r)
+		if i == len(body) {
+			return rows, nil
+		}
+		if err = lit(", "); err != nil {
+			return rows, err
+		}
+	}
+}
 
 // c16bParse recognises the variant of a statement text and returns its rows.
-func c16bParse(q string) (variant int, rows []c16bRow, err error) {
-	variant = -1
+// tornWith >= 0: the text is the prefix of variant `variant` with the suffix state of variant
+// tornWith - a mixture of two statements (observation outside the statement, FINDINGS.md).
+func c16bParse(q string) (variant, tornWith int, rows []c16bRow, err error) {
+	variant, tornWith = -1, -1
 	body := ""
 	for pass := 0; pass < 2 && variant < 0; pass++ { // variants with a suffix first (two variants share a prefix)
 		for vi, v := range c16bVariants {
@@ -181,23 +330,29 @@ func c16bParse(q string) (variant int, rows []c16bRow, err error) {
 			break
 		}
 	}
+	for a := 0; a < len(c16bVariants) && variant < 0; a++ { // torn: prefix of a, suffix state of b
+		for b, vb := range c16bVariants {
+			va := c16bVariants[a]
+			if va.suffix == vb.suffix || !strings.HasPrefix(q, va.prefix+" ") {
+				continue
+			}
+			t := q[len(va.prefix)+1:]
+			if vb.suffix != "" {
+				if !strings.HasSuffix(t, " "+vb.suffix) {
+					continue
+				}
+				t = t[:len(t)-len(vb.suffix)-1]
+			}
+			if r, e := c16bScanRows(t); e == nil {
+				return a, b, r, nil
+			}
+		}
+	}
 	if variant < 0 {
-		return -1, nil, fmt.Errorf("statement text is none of the statements passed to NewBulkInserter/UpdateStmt: %.90q", q)
+		return -1, -1, nil, fmt.Errorf("statement text is none of the statements passed to NewBulkInserter/UpdateStmt: %.90q ... %.90q", q, q[c16bMax(0, len(q)-90):])
 	}
-	for _, part := range strings.Split(body, "), ") {
-		if !strings.HasSuffix(part, ")") {
-			part += ")"
-		}
-		m := c16bRowRe.FindStringSubmatch(part)
-		if m == nil {
-			return variant, nil, fmt.Errorf("malformed row %.40q", part)
-		}
-		id, _ := strconv.Atoi(m[1])
-		g, _ := strconv.Atoi(m[2])
-		seq, _ := strconv.Atoi(m[3])
-		rows = append(rows, c16bRow{id, g, seq})
-	}
-	return variant, rows, nil
+	rows, err = c16bScanRows(body)
+	return variant, -1, rows, err
 }
 
 type c16bHandled struct {
@@ -215,9 +370,13 @@ func c16bInterp(t *testing.T, c c16bCase) (v kit.Verdict) {
 	}
 	U := c16bInterval / 4
 	res := kit.Bubble(t, func() {
-		fake := &c16bFake{t0: time.Now(), lat: c.Lat, failAt: c.FailAt, unit: U}
+		fake := &c16bFake{t0: time.Now(), lat: c.Lat, failAt: c.FailAt, failK: c.FailK, unit: U}
 		db := sql.OpenDB(c16bConnector{fake})
 		defer db.Close()
+		// no connection reuse: sql.Result.RowsAffected locks the connection it came from, and a pooled
+		// connection may by then be executing (sleeping in) another statement - a mutex wait across
+		// virtual time would freeze the bubble (harness artefact)
+		db.SetMaxIdleConns(0)
 		bi, err := sqlx.NewBulkInserter(sqlx.NewConnFromDB(db), c16bVariants[c.V0].text())
 		if err != nil {
 			failf("NewBulkInserter: %v", err)
@@ -284,7 +443,7 @@ func c16bInterp(t *testing.T, c c16bCase) (v kit.Verdict) {
 							imu.Lock()
 							inserted[id] = rec
 							imu.Unlock()
-							if err := bi.Insert(id, g, seq); err != nil {
+							if err := bi.Insert(id, g, seq, c16bText(c.Alpha, id, c.big())); err != nil {
 								failf("Insert(%d, %d, %d): %v", id, g, seq, err)
 								return
 							}
@@ -319,7 +478,13 @@ func c16bInterp(t *testing.T, c c16bCase) (v kit.Verdict) {
 		for _, l := range c.Lat {
 			maxLat = c16bMax(maxLat, l)
 		}
-		horizon := acc + time.Duration((len(c.Ev)+20)*(maxLat+1))*U + 100*c16bInterval
+		// every wait of an operation is an Exec in progress: a few per statement that can be produced
+		// (threshold statements of long runs, one per event otherwise, tick flushes)
+		nst := 20
+		for _, e := range c.Ev {
+			nst += e.N/c16bMaxRows + 2
+		}
+		horizon := acc + time.Duration(3*nst*(maxLat+1))*U + 100*c16bInterval
 		select {
 		case <-done:
 		case <-time.After(horizon):
@@ -334,13 +499,40 @@ func c16bInterp(t *testing.T, c c16bCase) (v kit.Verdict) {
 		fake.mu.Lock()
 		defer fake.mu.Unlock()
 		where := map[int]int{}
+		big := c.big()
 		var sizes []int64
 		failedStmts := 0
 		for si, st := range fake.stmts {
-			variant, rows, err := c16bParse(st.query)
+			variant, tornWith, rows, err := c16bParse(st.query)
 			if err != nil {
 				failf("statement %d: %v", si, err)
 				continue
+			}
+			// The statement TEXT is judged only where it is determined: dbInserter.Execute reads the
+			// statement (prefix, later suffix) without the lock under which UpdateStmt replaces it, so
+			// an UpdateStmt that may overlap this Execute leaves the text unspecified, including a
+			// mixture of two statements (observation outside the statement, FINDINGS.md). Execute ran
+			// between the call of the last Insert of its rows and the arrival at the driver.
+			lastIns := int64(0)
+			for _, r := range rows {
+				if in, ok := inserted[r.id]; ok && in.call > lastIns {
+					lastIns = in.call
+				}
+			}
+			textUnspecified := false
+			for _, u := range upds {
+				if u.call < st.clk && (u.ret == 0 || u.ret > lastIns) {
+					textUnspecified = true
+				}
+			}
+			if textUnspecified {
+				cl["text-unspecified (UpdateStmt overlaps Execute)"] = true
+				if tornWith >= 0 {
+					cl["mixed-statement-text-observed (unspecified)"] = true
+				}
+			} else if tornWith >= 0 {
+				failf("statement %d (at %v) is a mixture of two statements although no UpdateStmt overlapped its execution: %q ... %q = prefix of variant %d with the suffix state of variant %d",
+					si, st.at, st.query[:c16bMin(60, len(st.query))], st.query[c16bMax(0, len(st.query)-50):], variant, tornWith)
 			}
 			if len(rows) > c16bMaxRows {
 				failf("statement %d carries %d rows > %d", si, len(rows), c16bMaxRows)
@@ -352,7 +544,7 @@ func c16bInterp(t *testing.T, c c16bCase) (v kit.Verdict) {
 				failedStmts++
 				cl["failed-exec"] = true
 			} else {
-				sizes = append(sizes, int64(len(rows)))
+				sizes = append(sizes, int64(len(st.query)))
 			}
 			// the text must have been handed to the inserter before this statement was executed
 			introduced := variant == c.V0
@@ -361,7 +553,7 @@ func c16bInterp(t *testing.T, c c16bCase) (v kit.Verdict) {
 					introduced = true
 				}
 			}
-			if !introduced {
+			if !introduced && !textUnspecified && tornWith < 0 {
 				failf("statement %d (at %v) uses the text of variant %d, which had not been passed to NewBulkInserter/UpdateStmt by then", si, st.at, variant)
 			}
 			if variant != c.V0 {
@@ -389,9 +581,16 @@ func c16bInterp(t *testing.T, c c16bCase) (v kit.Verdict) {
 							stale = false
 						}
 					}
-					if stale {
+					if stale && !textUnspecified && tornWith < 0 {
 						failf("row id %d (g %d seq %d) was inserted after UpdateStmt(variant %d) had returned, but was executed by statement %d with the older text of variant %d", r.id, r.g, r.seq, u.v, si, variant)
 					}
+				}
+				if want := c16bText(c.Alpha, r.id, big); utf8.ValidString(want) {
+					if r.txt != want {
+						failf("statement %d: row id %d reached the driver with text %.60q, inserted with %.60q", si, r.id, r.txt, want)
+					}
+				} else {
+					cl["invalid-utf8-text (value not compared)"] = true
 				}
 				if prev, dup := where[r.id]; dup {
 					failf("row id %d (g %d seq %d) executed twice: statements %d (at %v) and %d (at %v)", r.id, r.g, r.seq, prev, fake.stmts[prev].at, si, st.at)
@@ -417,8 +616,12 @@ func c16bInterp(t *testing.T, c c16bCase) (v kit.Verdict) {
 			for _, h := range handled {
 				if h.err != nil {
 					herrs++
-					if !errors.Is(h.err, errC16bInjected) {
-						failf("result handler got an unexpected error: %v", h.err)
+					want := c16bFailErr(c.FailK)
+					if c.FailK == 3 {
+						want = errC16bInjected // the wrapped value must still be reachable with errors.Is
+					}
+					if !errors.Is(h.err, want) {
+						failf("result handler got error %v, the driver returned %v", h.err, want)
 					}
 				} else {
 					got = append(got, h.rows)
@@ -434,7 +637,7 @@ func c16bInterp(t *testing.T, c c16bCase) (v kit.Verdict) {
 			sort.Slice(got, func(i, j int) bool { return got[i] < got[j] })
 			sort.Slice(sizes, func(i, j int) bool { return sizes[i] < sizes[j] })
 			if fmt.Sprint(got) != fmt.Sprint(sizes) {
-				failf("rows affected seen by the result handler %v differ from the executed statements' row counts %v", got, sizes)
+				failf("results seen by the result handler %v differ from the results the driver returned for the executed statements %v", got, sizes)
 			}
 			cl["result-handler"] = true
 		}
@@ -443,6 +646,12 @@ func c16bInterp(t *testing.T, c c16bCase) (v kit.Verdict) {
 		}
 		if len(upds) > 0 {
 			cl["UpdateStmt"] = true
+		}
+		if c.Alpha != 0 {
+			cl["text-alphabet"] = true
+		}
+		if failedStmts > 0 && c.FailK != 0 {
+			cl["error-value:"+[]string{"", "sql.ErrNoRows", "context.Canceled", "wrapped"}[c.FailK]] = true
 		}
 		if len(c.Lat) > 0 && maxLat > 0 {
 			cl["exec-latency"] = true
@@ -470,6 +679,9 @@ func c16bGen(rt *rapid.T) c16bCase {
 	c := c16bCase{FailAt: -1}
 	c.Handler = rapid.IntRange(0, 3).Draw(rt, "handler") > 0
 	c.V0 = rapid.IntRange(0, len(c16bVariants)-1).Draw(rt, "v0")
+	if rapid.Bool().Draw(rt, "alphabet") {
+		c.Alpha = rapid.IntRange(1, 1000).Draw(rt, "alpha")
+	}
 	ng := rapid.IntRange(1, 4).Draw(rt, "ng")
 	n := rapid.IntRange(1, 24).Draw(rt, "nev")
 	big := rapid.IntRange(0, 7).Draw(rt, "big") == 0 // cases that reach the 1000-row threshold
@@ -507,6 +719,7 @@ func c16bGen(rt *rapid.T) c16bCase {
 	}
 	if rapid.IntRange(0, 3).Draw(rt, "fail") == 0 {
 		c.FailAt = rapid.IntRange(0, 4).Draw(rt, "failAt") // at most one failing statement: the connection's breaker stays closed
+		c.FailK = rapid.IntRange(0, 3).Draw(rt, "failK")
 	}
 	return c
 }
